@@ -41,12 +41,18 @@ fuzz_campaign() { # $1 = property, $2 = seed ; returns 0 ok / 1 violation / 2 in
     case "$a" in *timeout-*|*oom-*) echo "INCONCLUSIVE: libFuzzer reported $(basename "$a") (kept in $W)"; [ $viol -eq 0 ] && viol=2; continue;; esac
     "$H/target/full/release/qxv" fuzz-artifact "$id" "$a" && echo "note: artifact $(basename "$a") does not reproduce through the oracle" || viol=1
   done
-  python3 - "$EVD/$id.json" "$execs" "$inst" "$runs" <<'PY'
+  local stats
+  stats=$("$H/target/full/release/qxv" fuzz-stats "$id" "$W"/corpus* 2>/dev/null | tail -1)
+  python3 - "$EVD/$id.json" "$execs" "$inst" "$runs" "$stats" <<'PY'
 import json, sys
 p, execs, inst, runs = sys.argv[1], int(sys.argv[2]), int(sys.argv[3]), int(sys.argv[4])
 try:
     e = json.load(open(p))
     e["coverage"]["fuzz_campaign"] = {"engine": "libFuzzer (cargo-fuzz 0.13), oracle inside the target", "instances": inst, "runs_requested_per_instance": runs, "executions": execs}
+    try:
+        e["coverage"]["fuzz_campaign"]["final_corpora_through_the_oracle"] = json.loads(sys.argv[5])
+    except Exception:
+        pass
     e["coverage"]["evaluations"] += execs
     json.dump(e, open(p, "w"), indent=1)
 except Exception as ex:
@@ -84,7 +90,7 @@ case "${1:-}" in
     rm -f "$EVD/.$id.part.json"
     # thorough tier of the byte-level properties: coverage-guided campaign (libFuzzer) whose
     # target contains the same oracle; fixed work (-runs), 8 independent instances
-    if [ "$tier" = thorough ] && [ $rc -eq 0 ] && echo " C01 C02 C03 C04 C07 C08 C10 C11 C14 C16 C18 " | grep -q " $id "; then
+    if [ "$tier" = thorough ] && [ $rc -eq 0 ] && echo " C01 C02 C03 C04 C07 C08 C10 C11 C14 C15 C16 C18 " | grep -q " $id "; then
       fuzz_campaign "$id" "$seed" || rc=$?
     fi
     exit $rc ;;
